@@ -773,4 +773,133 @@ theorem resolveNames_eq (strtab : SecBuf) (T : Bytes)
     simp only [resolveNames, h, ih, List.map_cons, withName]
     rfl
 
+/-! ### segments inside the file -/
+
+def segSkip (g : Seg) : Bool := seg64_load_data_skip g.stype g.filesz
+
+/-- header record of the segment at file position `k` as the loader decodes it -/
+def segHdr (c : Cls) (enc : Enc) (img : Bytes) (k : Nat) (isLazy : Bool) : Seg :=
+  decodePhdr c enc (slice img k (phdrSize c)) (segInit (BitVec.ofNat 64 img.length) isLazy)
+
+def SegInside (len : Nat) (g : Seg) : Prop := segSkip g = false → g.offset.toNat + g.filesz.toNat ≤ len
+
+theorem segReadSt_inside (st : IStream) (off size : BitVec 64)
+    (h : off.toNat + size.toNat ≤ st.data.length) (hl : st.data.length < 9223372036854775808) :
+    segReadSt st off size =
+      ({ st.clear with pos := off.toNat + size.toNat, gcount := size.toNat }, slice st.data off.toNat size.toNat) := by
+  unfold segReadSt
+  have hn : ¬ size.toInt < 0 := by rw [toInt_of_lt size (by omega)]; simp
+  rw [if_neg hn, toInt_of_lt off (by omega)]
+  rw [IStream.seekg_nat _ rfl _ (by simp [IStream.clear]; omega)]
+  rw [IStream.read_ok _ rfl rfl _ (by simp [IStream.clear]; omega)]
+  simp [IStream.clear]
+
+theorem segLoadData_eq (c : Cls) (tr : List Trans) (ls : LoadSt) (g : Seg) :
+    segLoadData c tr ls g =
+      if (match c with | .c32 => seg32_load_data_skip g.stype g.filesz | .c64 => seg64_load_data_skip g.stype g.filesz)
+      then (ls, g, true) else
+      if (match c with | .c32 => seg32_load_data_off_gt (secOff tr g.offset) g.streamSize
+                       | .c64 => seg64_load_data_off_gt (secOff tr g.offset) g.streamSize)
+      then (ls, { g with data := none }, false) else
+      if (match c with | .c32 => seg32_load_data_size_gt g.filesz g.streamSize (secOff tr g.offset)
+                       | .c64 => seg64_load_data_size_gt g.filesz g.streamSize (secOff tr g.offset))
+      then (ls, { g with data := none }, false) else
+      if (match c with | .c32 => seg32_load_data_sizet g.filesz | .c64 => seg64_load_data_sizet g.filesz)
+      then (ls, { g with data := none }, false) else
+      let r := segReadSt ls.st (secOff tr g.offset) g.filesz
+      let n : BitVec 64 := match c with
+        | .c32 => seg32_load_data_alloc g.filesz
+        | .c64 => seg64_load_data_alloc g.filesz
+      let ls' : LoadSt := { st := mergeFlags ls.st r.1, allocs := ls.allocs ++ [n.toNat] }
+      if !r.1.fail then (ls', { g with data := some (r.2 ++ [0]), isLoaded := true }, true)
+      else (ls', { g with data := none }, false) := by
+  unfold segLoadData segReadSt secOff mergeFlags
+  cases c <;> simp only [] <;>
+   (split
+    · rfl
+    · split
+      · rfl
+      · split
+        · rfl
+        · split
+          · rfl
+          · split <;> split <;> simp_all)
+
+/-- `segment_impl::load_data` when the file contains the segment's range -/
+theorem segLoadData_inside (c : Cls) (ls : LoadSt) (g : Seg)
+    (hss : g.streamSize = BitVec.ofNat 64 ls.st.data.length)
+    (h63 : ls.st.data.length < 9223372036854775808) (hs : segSkip g = false)
+    (hin : g.offset.toNat + g.filesz.toNat ≤ ls.st.data.length) :
+    (segLoadData c [] ls g).2 =
+      ({ g with data := some (slice ls.st.data g.offset.toNat g.filesz.toNat ++ [0]), isLoaded := true }, true) ∧
+    (segLoadData c [] ls g).1.st.eof = ls.st.eof ∧ (segLoadData c [] ls g).1.st.fail = ls.st.fail := by
+  have gd := guards_inside g.offset g.filesz _ h63 hin
+  have hs' : seg32_load_data_skip g.stype g.filesz = false := hs
+  unfold segSkip at hs
+  rw [segLoadData_eq]
+  simp only [secOff_nil, hss, hs, hs', seg32_load_data_off_gt, seg64_load_data_off_gt, seg32_load_data_size_gt,
+    seg64_load_data_size_gt, seg32_load_data_sizet, seg64_load_data_sizet, gd.1, gd.2.1, gd.2.2,
+    segReadSt_inside ls.st g.offset g.filesz hin h63]
+  cases c <;> simp [mergeFlags, IStream.clear]
+
+theorem segLoadData_skip (c : Cls) (tr : List Trans) (ls : LoadSt) (g : Seg) (hs : segSkip g = true) :
+    segLoadData c tr ls g = (ls, g, true) := by
+  have hs' : seg32_load_data_skip g.stype g.filesz = true := hs
+  unfold segSkip at hs
+  rw [segLoadData_eq]
+  cases c <;> simp [hs, hs']
+
+/-- resident data of a segment whose file range is inside the image -/
+def segData (img : Bytes) (g : Seg) : Option Bytes :=
+  if segSkip g then none else some (slice img g.offset.toNat g.filesz.toNat ++ [0])
+
+theorem wr_full (z src : Bytes) (h : src.length = z.length) : wr z 0 src = src := by
+  unfold wr; simp [h]
+
+/-- **`segment_impl::load` on a file that contains the record and the segment's range** -/
+theorem segLoad_inside (c : Cls) (enc : Enc) (ls : LoadSt) (k : Nat) (isLazy : Bool)
+    (he : ls.st.eof = false) (hf : ls.st.fail = false)
+    (h63 : ls.st.data.length < 9223372036854775808) (hk : k + phdrSize c ≤ ls.st.data.length)
+    (hin : SegInside ls.st.data.length (segHdr c enc ls.st.data k isLazy)) :
+    (segLoad c enc [] ls (Int.ofNat k) isLazy).2 =
+      ({ segHdr c enc ls.st.data k isLazy with
+           data := if isLazy then none else segData ls.st.data (segHdr c enc ls.st.data k isLazy),
+           isLoaded := !isLazy && !segSkip (segHdr c enc ls.st.data k isLazy) }, true) ∧
+    (segLoad c enc [] ls (Int.ofNat k) isLazy).1.st.eof = false ∧
+    (segLoad c enc [] ls (Int.ofNat k) isLazy).1.st.fail = false ∧
+    (segLoad c enc [] ls (Int.ofNat k) isLazy).1.st.data = ls.st.data ∧
+    (segLoad c enc [] ls (Int.ofNat k) isLazy).1.st.kind = ls.st.kind := by
+  rw [segLoad_eq, hdrRead_inside ls.st he hf k (phdrSize c) hk]
+  simp only []
+  rw [wr_full _ _ (by simp [slice_length_of_le hk])]
+  have e : decodePhdr c enc (slice ls.st.data k (phdrSize c)) (segInit (BitVec.ofNat 64 ls.st.data.length) isLazy)
+      = segHdr c enc ls.st.data k isLazy := rfl
+  rw [e]
+  cases isLazy
+  · simp only [Bool.false_eq_true, if_false, Bool.not_false, Bool.true_and]
+    cases hs : segSkip (segHdr c enc ls.st.data k false)
+    · have h := segLoadData_inside c { ls with st := { ls.st with pos := k + phdrSize c, gcount := phdrSize c } }
+        (segHdr c enc ls.st.data k false) (by simp [segHdr, segInit]) h63 hs (hin hs)
+      refine ⟨?_, ?_, ?_, by simp, by simp⟩
+      · rw [h.1]; simp [segData, hs]
+      · rw [h.2.1]; exact he
+      · rw [h.2.2]; exact hf
+    · rw [segLoadData_skip c [] _ _ hs]
+      refine ⟨?_, by simp [he, hf]⟩
+      simp only [segData, hs, if_true, Bool.not_true]
+      congr 1
+      cases hg : segHdr c enc ls.st.data k false
+      have h1 : (segHdr c enc ls.st.data k false).data = none := by simp [segHdr, segInit]
+      have h2 : (segHdr c enc ls.st.data k false).isLoaded = false := by simp [segHdr, segInit]
+      rw [hg] at h1 h2
+      simp_all
+  · simp only [if_true, Bool.not_true, Bool.false_and]
+    refine ⟨?_, by simp [he, hf]⟩
+    congr 1
+    cases hg : segHdr c enc ls.st.data k true
+    have h1 : (segHdr c enc ls.st.data k true).data = none := by simp [segHdr, segInit]
+    have h2 : (segHdr c enc ls.st.data k true).isLoaded = false := by simp [segHdr, segInit]
+    rw [hg] at h1 h2
+    simp_all
+
 end ElfioVerif
